@@ -56,7 +56,10 @@ pub struct POp {
 pub struct PCase {
     pub docs: Vec<(Vec<usize>, usize)>,
     pub heads: Vec<Option<usize>>,
+    /// order of the real evaluation (reported in the OUTPUT; not part of the case text any more)
     pub order: Vec<usize>,
+    /// `g=<ranks>/<sigbits>` (computed by the real code) or `?`
+    pub g: String,
     pub ops: Vec<POp>,
 }
 
@@ -252,8 +255,7 @@ pub fn parse(input: &str) -> Option<PCase> {
     }
     let docs = parse_docs(toks[1])?;
     let heads = parse_heads(toks[2])?;
-    let order: Vec<usize> =
-        if toks[3] == "?" { vec![] } else { nat_list(toks[3], ',')?.into_iter().map(|x| x as usize).collect() };
+    let order: Vec<usize> = vec![];
     let mut ops = vec![];
     for (i, t) in toks[4..].iter().enumerate() {
         let (author, doc, ts, tips, actions) = parse_op_generic(t, docs.len(), i, parse_action)?;
@@ -266,7 +268,7 @@ pub fn parse(input: &str) -> Option<PCase> {
         }
         ops.push(POp { author, doc, ts, tips, actions });
     }
-    Some(PCase { docs, heads, order, ops })
+    Some(PCase { docs, heads, order, g: "?".into(), ops })
 }
 
 pub fn render(c: &PCase) -> String {
@@ -274,7 +276,7 @@ pub fn render(c: &PCase) -> String {
         "patch {} {} {}",
         show_docs(&c.docs),
         show_heads(&c.heads),
-        show_list(&c.order.iter().map(|x| x.to_string()).collect::<Vec<_>>(), ",")
+        c.g
     );
     for o in &c.ops {
         s.push_str(&format!(
@@ -528,6 +530,7 @@ pub fn run(w: &mut World, case: &mut PCase) -> Result<PRun, String> {
         |_, _| vec![],
     )?;
     let object = cob::ObjectId::from(ids[0]);
+    case.g = graph_token(&w.repo, &ids);
     let res = verif_common::catch(|| cob::get::<Traced<Patch>, _>(&w.repo, &type_name, &object));
     for h in &holders {
         w.remove_ref(h, &type_name, &object);
@@ -557,7 +560,12 @@ pub fn run(w: &mut World, case: &mut PCase) -> Result<PRun, String> {
         prev = s.after.clone();
     }
     case.order = order;
-    let out = format!("r={};{}", if res_s.is_empty() { "-".into() } else { res_s }, show_patch(w, &ids, &traced.inner)?);
+    let out = format!(
+        "o={};r={};{}",
+        show_list(&case.order.iter().map(|x| x.to_string()).collect::<Vec<_>>(), ","),
+        if res_s.is_empty() { "-".into() } else { res_s },
+        show_patch(w, &ids, &traced.inner)?
+    );
     Ok(PRun { output: out, steps, init: Some(traced.init), last: Some(traced.inner), docs, ids, tags })
 }
 
